@@ -145,6 +145,8 @@ class FnSpec:
         self.header, self.loops, self.before, self.after, self.body_start = [], {}, [], [], []
         self.loop_iter = {}
         self.after_loops = {}
+        self.before_loops = {}
+        self.loop_starts = {}
         self.assume = False
         self.header_files = []
         self.sig_rewrites = []
@@ -184,6 +186,8 @@ def parse_template(path):
                     rewrites += lines[i].strip()[len("//@@ rewrite "):].split()
                 elif lines[i].strip().startswith("//@@ derives "):
                     rewrites += ["derive:" + d for d in lines[i].strip().split()[2:]]
+                elif lines[i].strip().startswith("//@@ keep-derive "):
+                    rewrites += ["keep:" + d for d in lines[i].strip().split()[2:]]
                 else:
                     pre.append(lines[i])
                 i += 1
@@ -232,6 +236,10 @@ def parse_template(path):
                             fs.loop_iter[int(w[1])] = w[3]
                     elif d.startswith("after-loop "):
                         target = fs.after_loops.setdefault(int(d.split()[1]), [])
+                    elif d.startswith("before-loop "):
+                        target = fs.before_loops.setdefault(int(d.split()[1]), [])
+                    elif d.startswith("loop-start "):
+                        target = fs.loop_starts.setdefault(int(d.split()[1]), [])
                     elif d.startswith("before "):
                         target = []
                         fs.before.append((d[len("before "):].strip().strip('"'), target))
@@ -423,10 +431,10 @@ def build_fn(fs, canary=False):
                             in_end = btoks[jj].end
                             break
                         jj += 1
-                loop_positions.append((loop_idx, btoks[brace].start, t.text, in_end, btoks[match_close(btoks, brace)].end))
+                loop_positions.append((loop_idx, btoks[brace].start, t.text, in_end, btoks[match_close(btoks, brace)].end, t.start))
         k += 1
     for n, lines in fs.loops.items():
-        pos = [(p, ie) for (i_, p, _, ie, _e) in loop_positions if i_ == n]
+        pos = [(p, ie) for (i_, p, _, ie, _e, _s) in loop_positions if i_ == n]
         if not pos:
             raise ExtractError("lost anchor: %s has no loop #%d (found %d)" % (fs.id, n, len(loop_positions)))
         inserts.append((pos[0][0], "split", lines))
@@ -436,7 +444,17 @@ def build_fn(fs, canary=False):
             # ghost name of the iterator (Verus `for x in it: expr`): a pure insertion on its own line
             inserts.append((pos[0][1], "split", [" " + fs.loop_iter[n] + ":"]))
     for n, lines in fs.after_loops.items():
-        pos = [e for (i_, _p, _t, _ie, e) in loop_positions if i_ == n]
+        pos = [e for (i_, _p, _t, _ie, e, _s) in loop_positions if i_ == n]
+        if not pos:
+            raise ExtractError("lost anchor: %s has no loop #%d" % (fs.id, n))
+        inserts.append((pos[0], "split", lines))
+    for n, lines in fs.before_loops.items():
+        pos = [s_ for (i_, _p, _t, _ie, _e, s_) in loop_positions if i_ == n]
+        if not pos:
+            raise ExtractError("lost anchor: %s has no loop #%d" % (fs.id, n))
+        inserts.append((pos[0], "split", lines))
+    for n, lines in fs.loop_starts.items():
+        pos = [p_ + 1 for (i_, p_, _t, _ie, _e, _s) in loop_positions if i_ == n]
         if not pos:
             raise ExtractError("lost anchor: %s has no loop #%d" % (fs.id, n))
         inserts.append((pos[0], "split", lines))
@@ -564,13 +582,22 @@ def build_item(file, path, pre, rewrites):
     text, dropped = _strip_attr_lines(text)
     applied = []
     derives = [rw[7:] for rw in rewrites if rw.startswith("derive:")]
-    rewrites = [rw for rw in rewrites if not rw.startswith("derive:")]
+    keeps = [rw[5:] for rw in rewrites if rw.startswith("keep:")]
+    rewrites = [rw for rw in rewrites if not rw.startswith("derive:") and not rw.startswith("keep:")]
     for rw in rewrites:
         text, n = _apply_rewrite(rw, text)
         if n:
             applied.append([rw, "item", "%d site(s)" % n])
     out = [GenLine(ln, "inj") for ln in pre]
     trailer = []
+    if keeps:
+        attr_text = src[toks[item.attrs_start].start:a]
+        have = set(re.findall(r"\w+", " ".join(re.findall(r"derive\(([^)]*)\)", attr_text))))
+        for d in keeps:
+            if d not in have:
+                raise ExtractError("lost anchor: item no longer derives %s" % d)
+        out.append(GenLine("#[derive(%s)]" % ", ".join(keeps), "inj"))
+        applied.append(["keep_derive", "item", "derive(%s) kept verbatim (supported by Verus for field-less Copy enums)" % ", ".join(keeps)])
     if derives:
         # attributes precede the item header: look at them in the source
         attr_text = src[toks[item.attrs_start].start:a]
